@@ -90,7 +90,150 @@ def gen_fs(r):
                    "wall_steps": [r.choice([0.0, 0.0, 0.0, 0.4, 1.0, 3.0, 3600.0, -1.0, -3600.0]) for _ in range(r.randint(1, 3))]}}
 
 
+def gen_group(r):
+    """Group OSCORE, group mode: every member can derive the symmetric keys, only the countersignature says who sent a
+    request.  A member M forges requests under A's sender ID (they decrypt, A never signed them); a forwarder damages
+    the signature of a genuine request.  The server keeps one replay window per sender."""
+    n = r.randint(3, 14)
+    ops = []
+    pool = [0, 1, 2, 3, 5, 8, 31, 32, 33, 40, 64, 100, 1000, 2 ** 20, 2 ** 40 - 2]
+    for _ in range(n):
+        seq = r.choice(pool) if r.chance(0.7) else r.randint(0, 80)
+        k = r.weighted([(5, "genuine"), (3, "forged"), (2, "sigflip"), (1, "ctflip")])
+        ops.append({"k": k, "seq": seq, "bit": r.randint(0, 511)})
+        if k != "genuine" and r.chance(0.7):
+            # ... and then the genuine request with that very number
+            ops.append({"k": "genuine", "seq": seq, "bit": 0})
+    return {"group": {"ops": ops, "key_seed": r.randint(0, 2 ** 32), "alg": r.choice(["default", "default", "A128CBC"])}}
+
+
+def execute_group(sim, scn):
+    from simkit import oscore_env as env
+
+    osc = env.prepare()
+    import aiocoap
+    from aiocoap.message import Direction
+
+    g = scn["group"]
+    sig = hashlib.blake2b(digest_size=8)
+    alg_aead = osc.algorithms[osc.DEFAULT_ALGORITHM]
+    alg_group_enc = osc.algorithms.get("A128CBC", alg_aead) if g.get("alg") == "A128CBC" else alg_aead
+    hashfun = osc.hashfunctions[osc.DEFAULT_HASHFUNCTION]
+    alg_sign = osc.Ed25519()
+    alg_pairwise = osc.EcdhSsHkdf256()
+    counter = [0]
+
+    def seeded_key():
+        counter[0] += 1
+        return hashlib.blake2b(b"%d:%d" % (g["key_seed"], counter[0]), digest_size=32).digest()
+    alg_sign._generate = seeded_key  # (key generation is the one draw from the system's randomness here)
+    ID_S, ID_A, ID_M = b"\x0a", b"\x01", b"\x02"
+
+    def member(sender_id, private_key, cred, peers):
+        return osc.SimpleGroupContext(alg_aead, hashfun, alg_sign, alg_group_enc, alg_pairwise, b"G", bytes(range(64)), b"PoCl4",
+                                      sender_id, private_key, cred, peers, b"gm credential", group_manager_cred_fmt="dummy")
+
+    keys = {i: alg_sign.generate_with_ccs() for i in (ID_S, ID_A, ID_M)}
+    creds = {i: c for i, (_, c) in keys.items()}
+    server = member(ID_S, keys[ID_S][0], creds[ID_S], {ID_A: creds[ID_A], ID_M: creds[ID_M]})
+    a = member(ID_A, keys[ID_A][0], creds[ID_A], {ID_S: creds[ID_S]})
+    # what M can set up from what every member has plus its own private key: sends under A's ID, with A's public
+    # credential in the authenticated data (as the server will assume), signed with M's key
+    m_as_a = member(ID_A, keys[ID_M][0], creds[ID_M], {ID_S: creds[ID_S]})
+    m_as_a.sender_auth_cred = creds[ID_A]
+    sim.probe("group_mode")
+
+    def request(sender, seq, payload):
+        sender.sender_sequence_number = seq
+        plain = aiocoap.Message(code=aiocoap.POST, uri_path=["r"], payload=payload)
+        plain.direction = Direction.OUTGOING
+        protected, _ = sender.protect(plain)
+        protected.mtype, protected.mid, protected.token = aiocoap.NON, 0x1234, b"tk"
+        return protected.encode()
+
+    def serve(data):
+        arrived = aiocoap.Message.decode(data)
+        arrived.direction = Direction.INCOMING
+        unprotected = osc.verify_start(arrived)
+        ctx = server.get_oscore_context_for(unprotected)
+        message, _ = ctx.unprotect(arrived)
+        return message
+
+    def window():
+        return dict(server.recipient_replay_windows[ID_A].persist())
+
+    # reference model of the window A's requests meet (RFC 8613 7.4 with the library's window size)
+    W = server.recipient_replay_windows[ID_A]._size if hasattr(server.recipient_replay_windows[ID_A], "_size") else 32
+    seen = set()
+    top = [-1]
+
+    def model_valid(seq):
+        if seq in seen:
+            return False
+        return not (top[0] >= 0 and seq <= top[0] - W)
+
+    for i, op in enumerate(g["ops"]):
+        seq, k = int(op["seq"]), op["k"]
+        ident = {"op": i, "kind": k, "seq": seq, "group_enc": g.get("alg")}
+        sig.update(("%s:%d;" % (k, seq)).encode())
+        if k == "genuine":
+            data = request(a, seq, b"genuine-%d" % i)
+            expect = model_valid(seq)
+            try:
+                msg = serve(data)
+            except (osc.ProtectionInvalid, AttributeError) as e:
+                # (AttributeError: a replay on a group context trips over a missing attribute instead of raising
+                # ReplayError -- refused all the same; noted)
+                if isinstance(e, AttributeError):
+                    sim.anomaly("replay-on-group-context-raises-AttributeError", str(e)[:80])
+                if expect:
+                    sim.violation("C12/genuine-request-refused", dict(ident, error="%s: %s" % (type(e).__name__, str(e)[:80]),
+                                                                     seen=sorted(seen)[-6:], top=top[0]))
+                else:
+                    sim.probe("group_replay_refused")
+                continue
+            if not expect:
+                sim.violation("C12/replay-accepted" if seq in seen else "C12/old-number-accepted", dict(ident, top=top[0]))
+            if msg.payload != b"genuine-%d" % i:
+                sim.violation("C12/wrong-message-delivered", dict(ident, payload=msg.payload.hex()[:40]))
+            seen.add(seq)
+            top[0] = max(top[0], seq)
+            sim.probe("group_genuine_accepted")
+            continue
+        if k == "forged":
+            data = request(m_as_a, seq, b"forged-%d" % i)
+        else:
+            data = bytearray(request(a, seq, b"damaged-%d" % i))
+            sig_len = alg_sign.signature_length
+            if k == "sigflip":
+                pos = len(data) - 1 - (op["bit"] // 8) % sig_len  # inside the trailing countersignature
+            else:
+                body = len(data) - sig_len
+                pos = body - 1 - (op["bit"] // 8) % 8  # inside the ciphertext / tag in front of it
+            data[pos] ^= 1 << (op["bit"] % 8)
+            data = bytes(data)
+        before = window()
+        sim.extra_n = getattr(sim, "extra_n", 0) + 1
+        try:
+            serve(data)
+        except (osc.ProtectionInvalid, AttributeError):
+            sim.probe("group_%s_refused" % k)
+        except Exception as e:
+            sim.anomaly("unprotect-raises-%s" % type(e).__name__, str(e)[:80])
+        else:
+            sim.violation("C12/unauthentic-request-accepted", ident)
+            continue
+        after = window()
+        if after != before and model_valid(seq):
+            sim.violation("C12/forgery-marks-window", dict(ident, before=before, after=after))
+    sim.nontrivial = True
+    sim.extra_faults = {"forged_or_damaged_group_request": getattr(sim, "extra_n", 0)}
+    sim.signature = sig.hexdigest()
+
+
 def gen(r, tier):
+    if r.chance(0.06):
+        return gen_group(r)
     if r.chance(0.12):
         return gen_fs(r)
     ctx = gen_ctx(r)
@@ -227,6 +370,11 @@ def corpus():
 
 
 def shrink(scn):
+    if scn.get("group"):
+        g = scn["group"]
+        for i in range(len(g["ops"])):
+            yield {"group": dict(g, ops=g["ops"][:i] + g["ops"][i + 1:])}
+        return
     if scn.get("fs"):
         f = scn["fs"]
         for i in range(len(f["ops"])):
@@ -351,6 +499,8 @@ def execute_fs(sim, scn):
 def execute(sim, scn):
     if scn.get("fs"):
         return execute_fs(sim, scn)
+    if scn.get("group"):
+        return execute_group(sim, scn)
     from simkit import oscore_env as env
 
     osc = env.prepare()
